@@ -41,6 +41,8 @@ func main() {
 			genC12(g, n, os.Stdout)
 		case "c05":
 			genC05(g, n, os.Stdout)
+		case "parse":
+			genParse(g, repoDir(), n, os.Stdout)
 		case "c15":
 			genC15(g, n, os.Stdout)
 		case "c07":
